@@ -49,7 +49,7 @@ ASSUMPTIONS = [
 REQUIRED = ["pairs", "rotations", "translations", "scalings", "renumberings", "library_motions",
             "length_compared", "multisets_compared", "per_node_compared", "sholl_fixed_radii_compared",
             "sholl_steps_compared", "angles_compared", "orders_compared", "volume_compared",
-            "small_extent_scalings", "tap_sholl_get"]
+            "small_extent_scalings", "file_sourced_trees", "tap_sholl_get"]
 FLOOR = {"quick": 500, "thorough": 10000}
 SHARDS = {"quick": 8, "thorough": 16}
 TIMEOUT = {"quick": 400, "thorough": 3000}
@@ -334,9 +334,13 @@ def execute(ctx, case):
 
 def _exec(ctx, case):
     spec = G.spec_from_recipe(case["tree"])
-    tree = G.build(spec, with_tag=False)
+    # like a tree read from a file: transformed copies keep the source of the original
+    src = "/data/cells/neuron.swc" if case["mseed"] % 2 else ""
+    tree = G.build(spec, with_tag=False, source=src)
     n = len(spec["pid"])
     s = case["scale"]
+    if src:
+        ctx.count("file_sourced_trees")
     if case["by"] == "library":
         tree2 = library_twin(tree, case)
         spec2 = {k: tree2.ndata[k] for k in ("pid", "type", "x", "y", "z", "r")}
@@ -344,7 +348,7 @@ def _exec(ctx, case):
         ctx.count("library_motions")
     else:
         spec2, new_of_old = twin_spec(spec, case)
-        tree2 = G.build(dict(spec2), with_tag=False)
+        tree2 = G.build(dict(spec2), with_tag=False, source=src)
     refA = Ref(spec["pid"], np.stack([spec["x"], spec["y"], spec["z"]], axis=1))
     refB = Ref(spec2["pid"], np.stack([spec2["x"], spec2["y"], spec2["z"]], axis=1))
     ctx.count("pairs")
